@@ -786,14 +786,14 @@ def _same(a, b):
 
 def call(f, *a, **k):
     """Call code under test; ('ok', value) or ('raise', TypeName, message).
-    A plain function called with two or more positional arguments is, in one call out of four (chosen by the arguments), called again
+    A plain function called with positional arguments only is, in one call out of four (chosen by the arguments), called again
     with every argument passed by name, the names in reverse order - `f(msg, lat_ref, lon_ref)` as `f(lon_ref=.., lat_ref=.., msg=..)`.
     How the arguments are passed is not an input of any property: a different outcome is returned as a KeywordFormDiffers failure."""
     try:
         r = ("ok", f(*a, **k))
     except Exception as e:  # noqa
         r = ("raise", type(e).__name__, str(e)[:200])
-    if len(a) >= 2 and not k and KEYWORD_FORMS:
+    if a and not k and KEYWORD_FORMS:
         names = _kw_names(f)
         if names is not None and len(names) >= len(a):
             try:
